@@ -102,7 +102,8 @@ PROPS = {
         "streams": [{"stream": "raw", "profile": "mix", "quick": 2000, "thorough": 20000, "thorough_seeds": 2},
                     {"tool": "vprobe", "stream": "kernel", "profile": "decide", "quick": 60, "thorough": 400, "thorough_seeds": 2, "args": ["-profile", "decide"]},
                     {"tool": "vprobe", "stream": "kernel", "profile": "verifier", "quick": 60, "thorough": 500, "thorough_seeds": 2, "args": ["-profile", "verifier"]},
-                    {"tool": "vprobe", "stream": "kernel", "profile": "load", "quick": 20, "thorough": 300, "args": ["-profile", "load"]}],
+                    {"tool": "vprobe", "stream": "kernel", "profile": "load", "quick": 20, "thorough": 300, "args": ["-profile", "load"]},
+                    {"tool": "vprobe", "stream": "kernel", "profile": "par", "quick": 40, "thorough": 500, "args": ["-profile", "par"]}],
         "trusted": CBPF_TRUST + ["the kernel's classic-BPF interpreter, checker and action handling (Model/Raw.lean: runRaw, kernelAccepts; Proofs/C08.lean: outcome) are modelled, not verified; validated against the running kernel (6.18) on every run",
                                  "x/net bpf.Assemble for the four instruction kinds is modelled by `encode` (raw stream: exact equality)"],
         "assumptions": ["decisions are observed for harmless probe syscalls only (they ignore their registers), on x86_64, on the host kernel",
@@ -110,7 +111,8 @@ PROPS = {
     },
     "C09": {
         "lean": ["Seccomp.Proofs.C09"],
-        "streams": [{"tool": "vprobe", "stream": "kernel", "profile": "load", "quick": 60, "thorough": 1500, "thorough_seeds": 2, "args": ["-profile", "load"]}],
+        "streams": [{"tool": "vprobe", "stream": "kernel", "profile": "load", "quick": 60, "thorough": 1500, "thorough_seeds": 2, "args": ["-profile", "load"]},
+                    {"tool": "vprobe", "stream": "kernel", "profile": "par", "quick": 80, "thorough": 1000, "thorough_seeds": 2, "args": ["-profile", "par"]}],
         "trusted": KERNEL_TRUST,
         "assumptions": ["kernel semantics of seccomp(2)/prctl(2) as modelled in Model/Kernel.lean (validated against the running kernel by the histories of this run, on this kernel only): refusal order length → privilege → verifier; two faults (seccomp(2) → ENOSYS, prctl(PR_SET_NO_NEW_PRIVS) → EINVAL), both injected live by an outer filter",
                         "flag bits 8/16/32 (user-notification listener) are outside the model: the modelled kernel knows TSYNC, LOG, SPEC_ALLOW (knownFlags = 7) and refuses the rest; no live history uses them"],
